@@ -107,15 +107,23 @@ Section Valid.
   Qed.
 
   Definition PostB (P : list Z) (t : Z) : Prop :=
-    zlen P = N + 1 /\ forall u, 0 <= u < N -> get P u = Ok (parent_at es t u).
+    N <= zlen P /\ forall u, 0 <= u < N -> get P u = Ok (parent_at es t u).
 
   Definition PreB (P : list Z) (t' : Z) : Prop :=
-    zlen P = N + 1 /\
+    N <= zlen P /\
     (forall u, 0 <= u < N -> exists p, get P u = Ok p /\
         (p <> NULL -> exists e, In e es /\ echild e = u /\ eparent e = p /\ eleft e < t' <= eright e)) /\
     (forall e, In e es -> eleft e < t' -> t' <= eright e -> get P (echild e) = Ok (eparent e)).
 
   Lemma pre_init : 0 <= N -> PreB (repeat NULL (Z.to_nat (N + 1))) 0.
+  Proof.
+    intros HN. split; [unfold zlen; rewrite repeat_length; lia|]. split.
+    - intros u Hu. exists NULL. split; [apply get_repeat; lia | congruence].
+    - intros e Hin H1. destruct (Hok e Hin) as [? _]. lia.
+  Qed.
+
+  (* the same for an array with exactly N entries (node_edge_map of tsk_treeseq_init_trees) *)
+  Lemma pre_init_n : 0 <= N -> PreB (repeat NULL (Z.to_nat N)) 0.
   Proof.
     intros HN. split; [unfold zlen; rewrite repeat_length; lia|]. split.
     - intros u Hu. exists NULL. split; [apply get_repeat; lia | congruence].
